@@ -5,6 +5,7 @@ PROP = "C05"
 
 META = {
     "functions": [
+        ("datacake-eventual-consistency/src/keyspace/actor.rs", ["on_multi_set", "on_multi_del"]),
         ("datacake-crdt/src/orswot.rs", ["diff", "check_self_then_insert_to", "is_ts_before_last_observed_event", "will_apply",
                                          "insert_with_source", "delete_with_source", "try_update_max_stamp", "compute_safe_last_stamp", "get"]),
     ],
@@ -15,7 +16,7 @@ META = {
         "repair": "(quick+thorough) two ARBITRARY invariant-satisfying replicas whose stamps all lie within one forgiveness period, one-directional repair, both batch orders; the pool-built two-way exchange harness did not finish and is not registered",
     },
     "models": ["vcoll container models (see C04)", "spec_cutoff",
-               "repair path: the will_apply-gated, stamp-ordered batch application of on_multi_del/on_multi_set on READ_REPAIR_SOURCE_ID is transcribed in the harness (20 lines); the real handlers are decided under C02"],
+               "repair path: the will_apply-gated, stamp-ordered batch application of on_multi_del/on_multi_set on READ_REPAIR_SOURCE_ID is transcribed in the harness (20 lines) for the two-state repair harnesses; the REAL handlers (one-document requests) are additionally run from the C02 actor mount (shims and store model as listed under C02)"],
     "assumptions": ["representation invariant over-approximates reachable states", "repair: distinct stamps, all within one forgiveness period (the property's second condition)"],
     "outside": ["the gap-free-prefix condition beyond what subsets of a <=3-operation pool exhibit", "pools larger than 3", "storage/network parts of the repair path (poller.rs)"],
 }
@@ -27,7 +28,7 @@ MANIFEST = {
             "arbitrary replica states within one forgiveness period: applying ANY single item of the difference (will_apply-gated, "
             "read-repair source) removes exactly that item, touches no other key and preserves invariant and window condition (so any "
             "batch split/order empties the difference); in the thorough tier the whole two-batch application in both orders leaves "
-            "nothing to fetch and the replica at least as new as the peer on every key the peer holds. The two-way exchange on "
+            "nothing to fetch and the replica at least as new as the peer on every key the peer holds; the real bulk handlers of the repair path (one-document requests) make an admitted item visible in set and store or leave both unchanged. The two-way exchange on "
             "pool-built replicas did not finish and is not claimed by a harness of its own.",
     "note": "Trusts Kani/CBMC, the vcoll container models, the invariant, and the 20-line transcription of the gated batch application.",
     "technique": "Kani/CBMC bounded model checking of the compiled source; symbolic state pairs for exactness and for the inductive repair step; native replay",
@@ -44,6 +45,11 @@ def build(ws, tier, seed, mode):
         d3, m3, cfg3 = common.build_crdt_vcoll(ws, mode, ["harness_orswot_common.rs", "harness_c05.rs"], 3, 3, name="crdt33", suffix="_k3")
         crates["crdt33"] = {"dir": d3, "features": feats}
         cfg = {"crdt": cfg, "crdt33": cfg3}
+    # the real repair application path: KeyspaceActor::on_multi_del / on_multi_set (one-document requests, any source incl. the
+    # read-repair one, failing store) - the C02 actor mount with Vec capacity 1
+    d1, mounted1, _ = common.build_actor_mount(ws, mode, ["harness_c02.rs"], 2, 2, vcap=1, subdir="bulk1")
+    crates["ecv1"] = {"dir": d1, "features": feats}
+    mounted = mounted + [m for m in mounted1 if "eventual-consistency" in m["source"]]
     return {"crates": crates, "mounted": mounted, "cfg": cfg}
 
 
@@ -60,6 +66,12 @@ def harnesses(tier, seed):
         h("c05_self_diff_empty_n2", "diff against itself is empty"),
         h("c05_repair_one_item_n2", "applying any single item of A.diff(B) removes exactly that item from the difference; other keys, invariant and "
           "window condition preserved (induction step for any batch split/order)", covers=2, t=1500, mem=24),
+    ]
+    hs += [
+        h("c02_on_multi_del1_step", "the real removal batch of the repair path (KeyspaceActor::on_multi_del, one document, any source, failing store): "
+          "a completed request makes the removal visible exactly when the set admits it; set and store agree", covers=2, t=800, mem=16, crate="ecv1"),
+        h("c02_on_multi_set1_step", "the real modification batch of the repair path (KeyspaceActor::on_multi_set, one document, any source, failing "
+          "store): a completed request makes the document visible exactly when the set admits it; set and store agree", covers=2, t=800, mem=16, crate="ecv1"),
     ]
     if tier == "thorough":
         hs += [
